@@ -1130,6 +1130,50 @@ def g_batch(mode):
                         finally:
                             for o in objs:
                                 r.daemon.unregister(o)
+            # the remote object is a registered CLASS (session instances: one fresh object per connection).  An earlier connection has used a batch on the id;
+            # then the same program is run one by one on a new connection and as a batch on another new connection - both start from a fresh identical object
+            # (instance_mode percall is left out on purpose: one by one every call gets its own fresh object, so there is no "identical object" the property could
+            #  compare a batch with; single: one shared object, covered by the instance scenarios above)
+            for mode_ in ("session",):
+                for sername in ("serpent", "json"):
+                    RUNS[0] += 1
+
+                    @api.expose
+                    @server.behavior(instance_mode=mode_)
+                    class AccClass(Acc):
+                        pass
+                    uri = r.daemon.register(AccClass)
+                    desc = {"group": "C11", "registered": "class, instance_mode=%s" % mode_, "serializer": sername}
+                    try:
+                        def run(calls_, batch):
+                            out, exc = [], None
+                            with client.Proxy(uri) as p:
+                                p._pyroSerializer = sername
+                                if batch:
+                                    b = client.BatchProxy(p)
+                                    for cl in calls_:
+                                        getattr(b, cl[0])(*cl[1:])
+                                    try:
+                                        for x in b():
+                                            out.append(x)
+                                    except Exception as x:    # noqa
+                                        exc = type(x)
+                                else:
+                                    for cl in calls_:
+                                        try:
+                                            out.append(getattr(p, cl[0])(*cl[1:]))
+                                        except Exception as x:    # noqa
+                                            exc = type(x)
+                                            break
+                                return out, exc, p.state()
+                        run([("add", 1000), ("state",)], True)        # the earlier connection
+                        for calls_ in ([("add", 5), ("add", 7), ("state",)], [("add", 5), ("fail",), ("add", 1)]):
+                            ref = run(calls_, False)
+                            got = run(calls_, True)
+                            if got != ref:
+                                fail(violated="batch on a fresh connection %r != the same calls one by one on a fresh connection %r" % (got, ref), calls=calls_, **desc)
+                    finally:
+                        r.daemon.unregister(uri.object)
             # listed known findings: a @oneway method inside a NORMAL batch runs inline and contributes its result / exception (one by one it
             # returns None and its exception is swallowed in its own thread); a member whose RESULT cannot be serialised fails the batch only after
             # the later members have run
@@ -1334,6 +1378,34 @@ def g_registry(mode):
             reg = sorted(p.registered())
             if reg != sorted(d.objectsById):
                 fail(group="C16", violated="registered() %r != registry %r" % (reg, sorted(d.objectsById)))
+        # an object of a class the serializers have never seen is returned BEFORE it is registered (travels by value), then registered: now it must arrive as a proxy
+        # (subclass of an already registered class, and a class of its own)
+        for sername in ("serpent", "json", "msgpack"):
+            for base in (Box, object):
+                RUNS[0] += 1
+                Fresh = api.expose(type("Fresh", (base,), {"who": lambda self: "fresh", "__init__": lambda self: None}))
+                f = Fresh()
+                REG["fresh"] = f
+                with client.Proxy(ua) as p:
+                    p._pyroSerializer = sername
+                    try:
+                        first = p.give("fresh")
+                    except Exception:    # noqa  (an ordinary object of an unknown class: the client may refuse to rebuild it)
+                        first = None
+                    if isinstance(first, client.Proxy):
+                        fail(group="C16", serializer=sername, violated="an object that was never registered arrived as a proxy")
+                    d.register(f, "idfresh")
+                    try:
+                        got = p.give("fresh")
+                        if not isinstance(got, client.Proxy) or got.who() != "fresh":
+                            fail(group="C16", serializer=sername, history="returned by value, then registered, then returned again (class derived from %s)" % base.__name__,
+                                 violated="registered object did not arrive as a proxy to itself (arrived as %s)" % type(got).__name__)
+                        got._pyroRelease()
+                    except errors.PyroError as e:
+                        fail(group="C16", serializer=sername, history="returned by value, then registered, then returned again (class derived from %s)" % base.__name__,
+                             violated="registered object did not arrive as a proxy: %r" % (e,))
+                    finally:
+                        d.unregister("idfresh")
         # returned registered object arrives as proxy reaching that very object; after unregistration it travels by value
         for sername in ("serpent", "json", "msgpack"):
             for how in ("by-object", "by-id", "by-id-then-id-reused"):
